@@ -65,16 +65,17 @@ func (f *Reverse) Call(s *slip.Scope, args slip.List, depth int) (result slip.Ob
 			result = nl
 		}
 	case *slip.Vector:
+		// Always a new vector, also for a vector with fewer than two elements.
 		elements := ta.AsList()
+		nl := make(slip.List, len(elements))
+		copy(nl, elements)
 		if 1 < len(elements) {
-			nl := make(slip.List, len(elements))
-			copy(nl, elements)
 			max := len(elements) - 1
 			for i := max / 2; 0 <= i; i-- {
 				nl[i], nl[max-i] = nl[max-i], nl[i]
 			}
-			result = slip.NewVector(len(nl), ta.ElementType(), nil, nl, ta.Adjustable())
 		}
+		result = slip.NewVector(len(nl), ta.ElementType(), nil, nl, ta.Adjustable())
 	case slip.Octets:
 		nl := make(slip.Octets, len(ta))
 		last := len(ta) - 1
